@@ -3675,7 +3675,9 @@ class FuncS(ValueFunc):
                     "Cannot evaluate {" + variable + "}: " + e.msg,
                     pos,
                 )
-            value = node.evaluate(environment).asString().value
+            value = node.evaluate(environment)
+            numeric = value.isNumerical() or base != 10 or digits != -1
+            value = value.asString().value
             try:
                 if base != 10:
                     value = f"{int(value):x}"
@@ -3691,7 +3693,7 @@ class FuncS(ValueFunc):
                     "Cannot format " + value + " as a number",
                     pos,
                 )
-            if zeroes and value.startswith("-"):
+            if zeroes and numeric and value.startswith("-"):
                 # the zeroes go between the sign and the digits
                 value = "-" + value[1:].rjust(width - 1, "0")
             while len(value) < width:
